@@ -155,6 +155,13 @@ class Interface(ModelElement):
         #    raise TopologyException("Cannot remove child interface interface from Interface in Experiment topology")
         node_id = self.topo.graph_model.find_child_connection_point_by_name(parent_node_id=self.node_id,
                                                                             iname=name)
+        # a sub-interface connected to a network service is disconnected first, so that
+        # no service port is left behind without a peer
+        for child in self.interface_list:
+            if child.node_id == node_id:
+                peers = child.get_peers(itype=InterfaceType.ServicePort)
+                if peers:
+                    self.topo.get_parent_element(peers[0]).disconnect_interface(child)
 
         self.topo.graph_model.remove_cp_and_links(node_id=node_id, delete_parent=False)
         # keep the cached list of child interfaces in step with the model
